@@ -70,6 +70,9 @@ def _join_meet_duality(
     if len(args) < 2:
         raise ValueError(f"Expected at least 2 arguments, got {len(args)}.")
 
+    # a tensor diagram identifies its nodes by identity, so an object that is passed more than once needs a node of its own each time
+    args = tuple(o.copy() for o in args)
+
     n = args[0].dim + 1
 
     # all arguments are 1-tensors, i.e. points or hypersurfaces (=lines in 2D)
